@@ -1,4 +1,4 @@
-import SctpVerif.Proofs.ReasmUnordRun
+import SctpVerif.Proofs.ReasmUnordMidRun
 /-!
 # C06, receive half at the reassembly queue — unordered messages: at most once, intact, never a fragment or a splice
 
@@ -16,6 +16,9 @@ Vocabulary (`Proofs/ReasmOrd.lean`, `Proofs/ReasmUnord*.lean`):
 * `S.UWF`: messages well formed (1 … 2^31-1 fragments), `skip` monotone (the TSN ranges of the messages are disjoint, in
   message order, not necessarily adjacent) and the whole universe spans at most 2^31 TSNs — the hypothesis serial-number
   comparison of TSNs forces (there is no cursor an unordered window could be anchored at).
+* `S.uidataFrag τ k i`: unordered I-DATA fragment: U flag, MID `k` (mod 2^32, unordered MID space), FSN `i`, B / E at the
+  ends, the PPI on the first fragment only, TSN `τ k i` ARBITRARY. `S.UMWF`: messages well formed and at most 2^31 messages
+  (one half-space window of MIDs). `S.usetFull τ k` = the complete set of message `k` as it waits in `unorderedMID`.
 * `HOp`: `push k i` hands that fragment to `pushWithError`, `read n` calls `read` with an `n`-byte buffer.
 * `S.AdmissibleU P ops`: indices valid and no fragment pushed twice (the association filters duplicate TSNs, C05).
   Arrival order, interleaving with reads, buffer sizes, loss (fragments never pushed) and `maxEntries` are arbitrary.
@@ -104,6 +107,65 @@ theorem C06_reasm_unordered_data_exactly_once (S : Sender) (hS : S.UWF) (σ : Na
     · exact h
     · rw [hdrained] at h; simp at h
 
+/-- ✱ unordered I-DATA (MID / FSN reassembly through `unorderedMIDMap`): the same statement; TSNs arbitrary, window
+2^31 on MIDs. -/
+theorem C06_reasm_unordered_idata (S : Sender) (hS : S.UMWF) (τ : Nat → Nat → BitVec 32) (maxEntries : BitVec 32)
+    (ops : List HOp) (hadm : S.AdmissibleU [] ops) :
+    ∃ D : List Nat, D.Nodup ∧ (∀ k ∈ D, k < S.msgs.length) ∧
+      S.deliveries (S.uidataFrag τ) (new S.si maxEntries) ops = D.map S.out ∧
+      (∀ k ∈ D, ∀ i, i < S.nf k → HOp.push k i ∈ ops) ∧
+      (∀ k, k < S.msgs.length →
+        (∀ i, i < S.nf k → (k, i) ∈ accepted (S.uidataFrag τ) (new S.si maxEntries) ops) →
+        k ∈ D ∨ S.usetFull τ k ∈ (finalQ (S.uidataFrag τ) (new S.si maxEntries) ops).unorderedMID) := by
+  obtain ⟨D, W, A, P, G, h, hdel, hG, hP⟩ :=
+    UMInv.run hS ops (UMInv_new S τ maxEntries) ⟨rfl, rfl, rfl⟩ hadm
+  simp only [List.nil_append] at h
+  have hnd := h.nodup
+  rw [List.nodup_append] at hnd
+  refine ⟨D, hnd.1, fun k hk => h.dwlen k (by simp [hk]), hdel, ?_, ?_⟩
+  · intro k hk i hi
+    rcases hP _ (h.dwpush k (by simp [hk]) i hi) with hin | hin
+    · simp at hin
+    · exact hin
+  · intro k hk hall
+    by_cases hin : k ∈ D ++ W
+    · rcases List.mem_append.1 hin with hd | hw
+      · exact .inl hd
+      · right; rw [h.um]; exact List.mem_map.2 ⟨k, hw, rfl⟩
+    · exfalso
+      have hnf := S.nf_pos hS.wf hk
+      -- every fragment sits in the map entry of `k`, which is incomplete
+      have hent : ∀ j, j < S.nf k → ∃ js, (k, js) ∈ A ∧ j ∈ js := by
+        intro j hj
+        rcases h.track (k, j) ((hG _).2 (.inr (hall j hj))) with hdw | hex
+        · exact absurd hdw hin
+        · exact hex
+      obtain ⟨js, hjs, _⟩ := hent 0 (by omega)
+      have hwf := h.awf _ hjs
+      apply hwf.2.2.2
+      apply sorted_eq_range _ _ hwf.2.1 hwf.2.2.1
+      intro j hj
+      obtain ⟨js', hjs', hj'⟩ := hent j hj
+      rw [pairwise_ne_unique h.keys hjs hjs']; exact hj'
+
+theorem C06_reasm_unordered_idata_exactly_once (S : Sender) (hS : S.UMWF) (τ : Nat → Nat → BitVec 32)
+    (maxEntries : BitVec 32) (ops : List HOp) (hadm : S.AdmissibleU [] ops)
+    (hall : ∀ k, k < S.msgs.length → ∀ i, i < S.nf k → (k, i) ∈ accepted (S.uidataFrag τ) (new S.si maxEntries) ops)
+    (hdrained : (finalQ (S.uidataFrag τ) (new S.si maxEntries) ops).unorderedMID = []) :
+    (S.deliveries (S.uidataFrag τ) (new S.si maxEntries) ops).Perm (S.msgs.map Msg.out) := by
+  obtain ⟨D, hnd, hlen, hdel, _, hcomp⟩ := C06_reasm_unordered_idata S hS τ maxEntries ops hadm
+  rw [hdel, ← map_out_range]
+  apply List.Perm.map
+  rw [List.perm_ext_iff_of_nodup hnd List.nodup_range]
+  intro k
+  rw [List.mem_range]
+  constructor
+  · exact hlen k
+  · intro hk
+    rcases hcomp k hk (hall k hk) with h | h
+    · exact h
+    · rw [hdrained] at h; simp at h
+
 -- non-vacuity (tests, by evaluation): two unordered messages (2 + 2 fragments) whose TSN ranges straddle the 2^32 wrap
 -- and are ADJACENT (…FFFE, …FFFF | 0, 1), so that E of the first and B of the second carry consecutive TSNs; fragments
 -- interleaved, the second message completes first; reads in between, one with a short buffer.
@@ -120,5 +182,11 @@ example : (finalQ (S0.udataFrag fun _ => 7) (new S0.si 0) ops0).unordered = [] :
 example : ((finalQ (S0.udataFrag fun _ => 7) (new S0.si 0) [.push 1 0, .push 0 1, .push 1 1]).unordered.map (·.ppi),
            (finalQ (S0.udataFrag fun _ => 7) (new S0.si 0) [.push 1 0, .push 0 1, .push 1 1]).unorderedChunks.length)
           = ([53], 1) := by decide
+
+-- the same run as I-DATA (MID / FSN; all TSNs equal — never looked at)
+example : S0.UMWF := ⟨by unfold Sender.WF; decide, by decide⟩
+example : S0.deliveries (S0.uidataFrag fun _ _ => 7) (new S0.si 0) ops0 = [(53, [9, 8]), (51, [1, 2, 3])] := by decide
+example : accepted (S0.uidataFrag fun _ _ => 7) (new S0.si 0) ops0 = [(1, 0), (0, 1), (1, 1), (0, 0)] := by decide
+example : (finalQ (S0.uidataFrag fun _ _ => 7) (new S0.si 0) ops0).unorderedMID = [] := by decide
 
 end C06
